@@ -11,7 +11,9 @@ EXTENDS Naturals, FiniteSets
 ValuePool == {"RED", "Red", "red", "rED", "DARK_RED", "darkRed", "dark_red", "_red", "red_", "R2D2",
               "type", "Self", "async", "Other_"}
 \* strings that are never schema values in this pool
-ExtraStrings == {"", "$nonascii", "$long", "red ", " RED", "R-E-D", "Other", "other", "OTHER", "Type", "self"}
+\* (including the Rust-side spellings of pool values: normalised identifiers, keyword escapes, padding)
+ExtraStrings == {"", "$nonascii", "$long", "red ", " RED", "R-E-D", "Other", "other", "OTHER", "Type", "self",
+                 "DarkRed", "R2d2", "REd", "Async", "type_", "Self_", "async_", "r#type", "RED$nl"}
 Strings == ValuePool \cup ExtraStrings
 
 Deser(values, s) == IF s \in values THEN [kind |-> "variant", of |-> s] ELSE [kind |-> "other", of |-> s]
